@@ -83,6 +83,8 @@ static void tls_op (int t, const char *op, int k, int v, long myval[]) {
 }
 /* several threads drop a reference of the same handle at the same moment */
 static volatile int ur_go, ur_ready; static int ur_h;
+static volatile int churn_go;
+static void *churn_fn (void *arg) { while (!__atomic_load_n (&churn_go, __ATOMIC_SEQ_CST)) sched_yield (); return arg; }
 static void *ur_fn (void *arg) {
 	int id = (int) (long) arg; double t0 = now ();
 	my_h = 20 + id; ensure_fp ();
@@ -153,6 +155,15 @@ int main (int argc, char **argv) {
 			while (__atomic_load_n (&ur_ready, __ATOMIC_SEQ_CST) < n && now () - t0 < 10.0) sched_yield ();
 			__atomic_store_n (&ur_go, 1, __ATOMIC_SEQ_CST);
 			for (k = 0; k < n; k++) pthread_join (ut[k], NULL);
+		}
+		else if (!strcmp (op, "churn")) {           /* churn N: N raw threads with 8 MB stacks alive together - pushes finished threads' stacks out of the C library's cache */
+			static pthread_t ct[128]; pthread_attr_t at; int k, n = a > 128 ? 128 : a;
+			pthread_attr_init (&at); pthread_attr_setstacksize (&at, 8u << 20);
+			__atomic_store_n (&churn_go, 0, __ATOMIC_SEQ_CST);
+			for (k = 0; k < n; k++) if (pthread_create (&ct[k], &at, churn_fn, NULL) != 0) { n = k; break; }
+			__atomic_store_n (&churn_go, 1, __ATOMIC_SEQ_CST);
+			for (k = 0; k < n; k++) pthread_join (ct[k], NULL);
+			pthread_attr_destroy (&at);
 		}
 		else if (!strcmp (op, "join")) { pint c; long seen; VTM ("\"e\":\"joincall\",\"h\":%d", a); c = p_uthread_join (hd[a]); seen = cellv[a]; VTM ("\"e\":\"joinret\",\"h\":%d,\"code\":%d,\"seen\":%ld", a, (int) c, seen); }
 		else if (!strcmp (op, "tset") || !strcmp (op, "trepl") || !strcmp (op, "tget")) tls_op (0, op, a, b, mainval);
